@@ -130,6 +130,13 @@ func census(r *lib.Run) {
 	for _, t := range toks {
 		k := t[:strings.LastIndex(t, "*")]
 		seen[k] = true
+		want := 1
+		if k == "handlers/dns_naming/mdns.go:sendMDNS" {
+			want = 2 // IPv4 and IPv6 branch
+		}
+		if _, ok := modelledSites[k]; ok && t != fmt.Sprintf("%s*%d", k, want) {
+			r.Viol("send-site-not-modelled", "the number of send calls in "+k+" changed ("+t+"): the model covers "+fmt.Sprint(want), "sites "+t)
+		}
 		if _, ok := modelledSites[k]; !ok {
 			r.Viol("send-site-not-modelled", "the library writes to a connection in "+k+", which no send_X of the C07 model covers", "sites "+t)
 		}
